@@ -52,3 +52,36 @@ R.contract(
         "every_finished_scenario_is_recorded": "iff(is_instance(event, 'ScenarioFinished'), ghost('recorded') == 1)",
     },
 )
+
+
+# ------------------------------------------------------------------------------------------------- the report: every new failure is stored, nothing stored earlier is lost
+RECD = "schemathesis.engine.recorder:"
+FailureInfo = Obj(RECD + "CheckFailureInfo", code_sample=Str, failure=Opq("FailureRef"))
+CheckN = Obj(RECD + "CheckNode", name=Const("check"), status=EnumOf("schemathesis.engine:Status", ["FAILURE"]), failure_info=OneOf(NoneT, FailureInfo))
+CaseN = Obj(RECD + "CaseNode", value=Obj("spec:ReportedCase", operation=Obj("spec:ReportedOp", label=Str)), parent_id=NoneT, transition=NoneT)
+RecorderS = Obj(RECD + "ScenarioRecorder", label=Const("GET /x"), cases=DictOf(optional={"c1": CaseN, "c2": CaseN}), checks=DictOf(optional={"c1": ListOf(CheckN, [0, 1]), "c2": ListOf(CheckN, [1])}),
+                interactions=DictOf(required={"c1": Obj(RECD + "Interaction", response=Opq("ResponseRef")), "c2": Obj(RECD + "Interaction", response=Opq("ResponseRef"))}))
+Stored = Obj(CTX_ + "GroupedFailures", case_id=Str, code_sample=Str, failures=ListOf(Opq("FailureRef"), [1]), response=Opq("ResponseRef"))
+StatisticS = Obj(CTX_ + "Statistic", failures=DictOf(optional={"GET /x": DictOf(required={"c0": Stored}), "GET /y": DictOf(required={"c9": Stored})}),
+                 unique_failures_map=KeyedDict(Opq("FailureRef"), Str, sizes=(0, 1)), extraction_failures=Const(set()), tested_operations=Const(set()), total_cases=IntRange(0, None),
+                 cases_with_failures=IntRange(0, None), cases_without_checks=IntRange(0, None))
+NEW = ("[(cid, ch.failure_info.failure) for cid in recorder.cases if cid in recorder.checks for ch in recorder.checks[cid] if ch.failure_info is not None and "
+       "not any(ch.failure_info.failure == k for k in old(dict(self.unique_failures_map)))]")
+R.contract(
+    CTX_ + "Statistic.on_scenario_finished",
+    prop="C05",
+    args={"self": StatisticS, "recorder": RecorderS},
+    requires=["implies('c1' in recorder.checks, 'c1' in recorder.cases) and implies('c2' in recorder.checks, 'c2' in recorder.cases)"],
+    raises=[],
+    ensures={
+        # no failure is lost between the engine and the report: every NEW unique failure of this scenario is stored under the scenario's label (once: duplicates are merged) ...
+        "every_new_failure_reaches_the_report": "all('GET /x' in self.failures and any(any(f == g for g in self.failures['GET /x'][c].failures) for c in self.failures['GET /x']) for cid, f in " + NEW + ")",
+        # ... and what an earlier scenario with the same label (another phase, another stateful suite) stored is still there
+        "earlier_failures_of_the_label_are_kept": "implies('GET /x' in old(dict(self.failures)), 'GET /x' in self.failures and 'c0' in self.failures['GET /x'] and self.failures['GET /x']['c0'] is old(dict(self.failures))['GET /x']['c0'])",
+        "other_labels_untouched": "implies('GET /y' in old(dict(self.failures)), self.failures['GET /y'] is old(dict(self.failures))['GET /y'])",
+    },
+    bounded_note="scenarios with up to 2 cases and one check result each",
+    max_paths=20000,
+)
+R.contracts[CTX_ + "Statistic.on_scenario_finished"].effects = {"recorded": "ghost('recorded') + 1"}
+R.contracts[CTX_ + "Statistic.on_scenario_finished"].requires_are_representation_invariant = True
